@@ -1,0 +1,12 @@
+// SPDX-FileCopyrightText: 2026 verification hooks
+//
+// SPDX-License-Identifier: GPL-3.0-or-later
+
+//go:build !verif
+// +build !verif
+
+package storage
+
+// simHook is a schedule/crash point of the deterministic-simulation harness. Without the
+// "verif" build tag it is an empty function and is inlined away.
+func simHook(point, key string) {}
